@@ -29,6 +29,7 @@ var h3Profiles = map[string][]int{
 	"C01": {14, 8, 34, 10, 14, 3, 3, 1, 1, 4, 0},
 	"C06": {10, 8, 30, 8, 10, 10, 4, 0, 0, 2, 10},
 	"C05": {20, 18, 14, 4, 14, 2, 2, 0, 0, 2, 0},
+	"C16": {22, 22, 14, 4, 10, 2, 2, 2, 1, 2, 0},
 }
 
 func genCluster(prop string) func(rng *simkit.Rand, tier string, idx int) *simkit.Case {
@@ -141,9 +142,14 @@ func execCluster(prop string) func(run *simkit.Run) {
 			case "fwdprobe":
 				w.opForwardedProbe(op.A, op.B)
 			}
+			if prop == "C16" && (op.K == "listen" || op.K == "unlisten" || op.K == "shutdown") && !run.Failed() {
+				w.checkRegisteredWhileConnected()
+			}
 		}
 		w.wg.Wait()
-		if !run.Failed() {
+		if !run.Failed() && prop == "C16" {
+			w.finalDrain()
+		} else if !run.Failed() {
 			w.finalSettled()
 		}
 		if w.requests > 0 && len(w.apps) > 0 {
@@ -430,6 +436,78 @@ func (w *cluster3) opForwardedProbe(a, b int) {
 		w.run.Fail("C06.second-hop", "forwarded-request-not-refused", "request %s arrived at %s marked as forwarded, %s has no local upstream for %q, status %d", rq.ID, entry.id, entry.id, ep, res.Status)
 	}
 	w.run.Probe("c06.forwarded_probe")
+}
+
+// checkRegisteredWhileConnected (C16.while): a little after a connection was
+// made or ended, what the serving nodes advertise equals the upstream
+// applications that are connected. An application that announced go-away but
+// has not closed yet may or may not still be counted.
+func (w *cluster3) checkRegisteredWhileConnected() {
+	if w.nw.Config().PktDrop > 0 {
+		return
+	}
+	var why string
+	for i := 0; i < 12; i++ {
+		time.Sleep(500 * time.Millisecond)
+		synctest.Wait()
+		adv := map[string]int{}
+		for _, n := range w.liveNodes() {
+			for ep, c := range n.srv.ClusterState().LocalNode().Endpoints {
+				adv[ep] += c
+			}
+		}
+		lo, hi := map[string]int{}, map[string]int{}
+		for _, a := range w.apps {
+			if a.closed || !w.appTargetServing(a) {
+				continue
+			}
+			hi[a.endpoint]++
+			if !a.goneAway {
+				lo[a.endpoint]++
+			}
+		}
+		why = ""
+		for _, ep := range append(append([]string{}, httpEndpoints...), tcpEndpoints...) {
+			if adv[ep] < lo[ep] || adv[ep] > hi[ep] {
+				why = fmt.Sprintf("endpoint %q: %d advertised, %d..%d upstream applications connected", ep, adv[ep], lo[ep], hi[ep])
+			}
+		}
+		if why == "" {
+			w.run.Probe("c16.while_checked")
+			return
+		}
+	}
+	w.run.Fail("C16.while", "registered-differs-from-connected", "6s after the last connect/disconnect: %s", why)
+}
+
+// appTargetServing: the node the application dials is serving (applications
+// pinned to a stopped node cannot be connected).
+func (w *cluster3) appTargetServing(a *app) bool {
+	if a.node < 0 {
+		return len(w.liveNodes()) > 0
+	}
+	return w.nodes[a.node].alive
+}
+
+// finalDrain (C16.drain): once every upstream has gone, nodes advertise nothing
+// and hold no registration.
+func (w *cluster3) finalDrain() {
+	w.nw.HealAll()
+	for _, a := range w.apps {
+		a.shutdown()
+	}
+	time.Sleep(3 * time.Second)
+	synctest.Wait()
+	for _, n := range w.liveNodes() {
+		if own := n.srv.ClusterState().LocalNode().Endpoints; len(own) != 0 {
+			w.run.Fail("C16.drain", "advertising-after-all-upstreams-gone", "every upstream application has disconnected but %s still advertises [%s]", n.id, epString(own))
+		}
+		var reg map[string]int
+		if err := w.adminJSON(n, "/status/upstream/endpoints", &reg); err == nil && len(reg) != 0 {
+			w.run.Fail("C16.drain", "registered-after-all-upstreams-gone", "every upstream application has disconnected but %s still holds registrations [%s]", n.id, epString(reg))
+		}
+	}
+	w.run.Probe("c16.drain_checked")
 }
 
 // opTCP dials a TCP endpoint through the real client.Dialer and echoes a payload.
